@@ -112,6 +112,16 @@ func (h *Hist) StateKey() string {
 	}
 	sort.Strings(loose)
 	b.WriteString(strings.Join(loose, ","))
+	// behaviour switches of the simulated cloud / API that events flip and that outlive the slot
+	fmt.Fprintf(&b, "#sw;r%d;s%d;p%d;e%v;st%v;hn%v;", h.W.ReadyFromPoll, h.W.FleetShort, h.W.FleetSplit, h.W.FleetErrors, h.W.ReadyStagger, h.W.ReadyHalfNever)
+	if len(h.W.AfterGet) > 0 {
+		ag := make([]string, 0, len(h.W.AfterGet))
+		for k := range h.W.AfterGet {
+			ag = append(ag, k)
+		}
+		sort.Strings(ag)
+		b.WriteString(strings.Join(ag, ","))
+	}
 	b.WriteString("#ctl;")
 	if h.C == nil {
 		b.WriteString("none")
